@@ -278,12 +278,13 @@ class lengthtest(Command):
         a = tex.readDimen()
         relation = next(tex.itertokens())
         b = tex.readDimen()
+        close = abs(a - b) < 1e-6
         if relation == '<':
-            return [_true() if a < b else _false()]
+            return [_true() if a < b and not close else _false()]
         elif relation == '>':
-            return [_true() if a > b else _false()]
+            return [_true() if a > b and not close else _false()]
         elif relation == '=':
-            return [_true() if abs(a - b) < 1e-6 else _false()]
+            return [_true() if close else _false()]
         raise ValueError('"%s" is not a valid relation' % relation)
 
 
